@@ -20,7 +20,7 @@ SPEC = {
     "spec_check": vlib.spec_via_driver("drv_c16"),
     "classify": lambda fl: KNOWN_CLASSES.get(fl.get("class")),
     "nontrivial": lambda r, a: a.startswith("ok") or a.startswith("err"),
-    "rule": "static list of every Square implementor (21 primitives, 18 named controlled gates, Loop) and 41 written-out nestings of "
+    "rule": "static list of every Square implementor (21 primitives, 18 named controlled gates, Loop) and 58 written-out nestings of "
             "C<..>, Kron<..,..>, Loop (C<C<RY>>, C<C<C<RZ>>>, Kron<U2,CX>, C<Kron<S,T>>, C<U2>, C<C<U2>>, C<Kron<U2,X>>, Kron<C<U2>,H>, "
             "Kron<U3,X>, C<Loop>, Kron<Loop,H>, ...) at generated parameters (0, +-pi/2, +-pi, >2pi, 1e-9, negative, random); a second "
             "stream gives the parameters kinds Direct/Reference/FFIRef by cycling masks (r, f, dr, rd, fd, drf, ddr): square() is called "
@@ -28,6 +28,12 @@ SPEC = {
             "(A) square()?.matrix() and matrix() vs the Lean model to 1e-12, error constructor exactly. (B) square()?.matrix() = "
             "c * matrix()*matrix() for ONE unit scalar c (1e-9) - which forces the controlled block of a controlled gate to match exactly; "
             "an error only where a non-Direct parameter or a U3 sits outside loop bodies. "
+            "Action (request sqact, every case of both streams again, plus 16 nestings whose Kron factors have DIFFERENT widths: Kron<CRX,RY>, "
+            "Kron<RY,CRZ>, Kron<RY,CCRX>, Kron<CCRY,RX>, Kron<Kron<CRX,H>,RY>, Kron<RZ,Kron<T,CRY>>, Kron<Loop2,RY>, Kron<RY,Loop2>, Kron<Loop1,Loop2>, "
+            "C<Kron<CRX,RY>>, C<Kron<RY,CRZ>>, C<C<Kron<T,CRY>>>, C<Kron<Loop2,RX>>, Kron<C<Kron<RY,CRZ>>,V>, Kron<T,CV>, Kron<CS,V>): "
+            "square()?.apply(psi1), .apply_slice(psi2) on fixed non-symmetric vectors and .apply_mat(Psi) on a 2^n x 3 matrix, "
+            "(A) vs the model's square matrix times the input to 1e-12, (B) vs c * matrix()*matrix() * input (the implementation's own matrix() of the "
+            "ORIGINAL, the same scalar c as for the matrices) to 1e-9 - a returned gate whose matrix() is right but which acts differently fails here. "
             "Non-trivial = the call returned (value or error); distinct = distinct request line.",
     "exhaustive": False,
 }
